@@ -199,6 +199,25 @@ theorem flowspec_len_4096 (rest : Bytes) : readFlowNlriLen (flowNlriLen 4096 ++ 
   rw [h]
   rfl
 
+/-- **Attributes towards a 2-octet-AS peer (RFC 6793), whole block.**  For well-formed input attributes with distinct
+    codes whose AS_PATH is carriable (`Carriable`: the two protocol limits F4e3 / F4e4 excluded — they are hypotheses,
+    see `witness_confed_tail`), the peer's attribute loop followed by `reconcile_as4` returns, for every input attribute,
+    the same code and value with the flags as on the wire (`fin2`): AS_PATH from the down-converted AS_PATH + AS4_PATH,
+    AGGREGATOR from the down-converted AGGREGATOR + AS4_AGGREGATOR, everything else unchanged. -/
+theorem two_octet_attributes_roundtrip (attrs : List Attr) (hok : AttrsOk attrs) (hcar : ∀ a ∈ attrs, Carriable a) :
+    reconcileAs4 (attrs.flatMap pre2) = attrs.map fin2 ∧
+    (∀ a ∈ attrs, (fin2 a).code = a.code ∧ (fin2 a).data = a.data ∧ canonAttr (fin2 a) = canonAttr a) :=
+  ⟨reconcile_pre2 attrs hok hcar, fun a _ => ⟨fin2_code a, by rw [fin2_eq], canonAttr_fin2 a⟩⟩
+
+/-- what `encodeAttrs` writes towards a 2-octet-AS peer and its size (= the Spec's `attrWireSize true`) -/
+theorem two_octet_attribute_block (p : Profile) (attrs : List Attr) (h : ∀ a ∈ attrs, attrOk a = true)
+    (hsz : (attrBlock2 attrs).length < 65536) :
+    encodeAttrs p true attrs 0 = .ok (attrBlock2 attrs, (attrBlock2 attrs).length) ∧
+    (attrBlock2 attrs).length = (attrs.map (attrWireSize true)).sum := by
+  refine ⟨?_, attrBlock2_length attrs h⟩
+  have := encodeAttrs_two p attrs 0 h (by omega)
+  simpa using this
+
 /-- **AS4 round trip**, exact condition in the statement: no AS number above 65535, or the confederation
     segments lead the path and hold no such number (what RFC 6793 §4.2.3 can carry). -/
 theorem as4_roundtrip (segs : List Seg) (hok : SegsOk 4 segs)
@@ -277,7 +296,7 @@ def exSplitReach : Input :=
   ⟨caps4 65001, caps4 65002,
    .reach Fam.ipv6 (some (.v6 [32, 1, 13, 184, 0, 0, 0, 0, 0, 0, 0, 0, 0, 0, 0, 1])) [origin, aspath, comm]
      ((List.range 400).map (fun k => ⟨.ip true [32, 1, 13, 184, 0, 1, 0, 0, 0, 0, 0, 0, 0, 0, k / 256, k % 256] 128, 1 + k % 3⟩))⟩
-/-- the same announcement towards a peer WITHOUT 4-octet AS support (outside `Dom`: kernel-evaluated instead):
+/-- the same announcement towards a peer WITHOUT 4-octet AS support (RFC 6793 down-conversion, inside `Dom`):
     AS_PATH with a wide AS, AGGREGATOR with a wide AS, three frames -/
 def ex2ByteSplit : Input :=
   ⟨caps4 65001, [.mp Fam.ipv4, .mp Fam.ipv6, .ap [(Fam.ipv6, 3)]],
@@ -301,10 +320,12 @@ theorem dom_examples_multiframe :
   decide +kernel
 
 set_option maxRecDepth 1000000 in
-/-- whole announcements towards a 2-octet-AS peer are outside `Dom` (only `as4_roundtrip` is proved about them);
-    this one (wide AS in AS_PATH and AGGREGATOR, three frames) is accepted by the checker in both profiles -/
+/-- whole announcements towards a 2-octet-AS peer are inside `Dom` (unless the AS_PATH hits one of the two RFC 6793
+    limits): this one (wide AS in AS_PATH and AGGREGATOR, three frames) is in `Dom`, and — independently of the master
+    theorem — the kernel evaluates the checker's verdict on it in both profiles (the recorded limit:
+    `witness_confed_tail`, outside `Dom`) -/
 theorem two_octet_peer_example :
-    buildable ex2ByteSplit = true ∧ Dom ex2ByteSplit = false ∧ framesOf (run .debug ex2ByteSplit) = 3 ∧
+    Dom ex2ByteSplit = true ∧ framesOf (run .debug ex2ByteSplit) = 3 ∧
     check ex2ByteSplit (run .debug ex2ByteSplit) = .ok ∧ check ex2ByteSplit (run .release ex2ByteSplit) = .ok := by
   decide +kernel
 
@@ -449,7 +470,7 @@ theorem repaired_notification :
 
 set_option maxRecDepth 1000000 in
 theorem witness_confed_tail :
-    buildable wConfedTail = true ∧
+    buildable wConfedTail = true ∧ Dom wConfedTail = false ∧
       check wConfedTail (run .debug wConfedTail) = .fail "as-path-differs-confed-segment-not-leading" := by
   decide +kernel
 
